@@ -111,7 +111,7 @@ CHECKS = {
              'embedded SICD) are written, parsed out of band, regrouped by the model and reopened through open_product.',
         design='DESIGN.md 6/C02 (C10 paragraph)',
         note='proved: regrouping decision logic (unbounded counts). Correspondence: IID1 element numbers/groups of real files vs the model. '
-             'Only SIDD 2 structures are generated (versions 1 and 3 share the code paths but are not exercised). ' + TB,
+             'SIDD structures of versions 1, 2 and 3 are generated; write histories include chunks interleaved across images and non-forced flushes on in-memory targets. ' + TB,
         technique='Lean 4 proof (induction over image list) + write/read differential + out-of-band NITF parser'),
     'C09': dict(
         text='Lean 4 theorems about the CPHD block layout as make_file_header computes it, for all sizes: _align rounds up to a multiple of '
@@ -313,6 +313,28 @@ CHECKS = {
 
 
 def main():
+    # later rounds override / extend the strings of a property through tools/manifest_texts/<id>.json:
+    #   {"text": ..., "note": ... (TB is appended), "technique": ..., "text_append": ..., "note_append": ..., "technique_append": ...}
+    tdir = os.path.join(HERE, 'manifest_texts')
+    for pid in list(CHECKS):
+        f = os.path.join(tdir, pid + '.json')
+        if os.path.exists(f):
+            o = json.load(open(f))
+            c = CHECKS[pid]
+            if 'text' in o:
+                c['text'] = o['text']
+            if 'note' in o:
+                c['note'] = o['note'] + ' ' + TB
+            if 'technique' in o:
+                c['technique'] = o['technique']
+            if 'text_append' in o:
+                c['text'] = c['text'].rstrip() + ' ' + o['text_append']
+            if 'note_remove' in o:
+                c['note'] = c['note'].replace(o['note_remove'], '')
+            if 'note_append' in o:
+                c['note'] = c['note'].replace(' ' + TB, '').rstrip() + ' ' + o['note_append'] + ' ' + TB
+            if 'technique_append' in o:
+                c['technique'] = c['technique'] + o['technique_append']
     checks = []
     for pid in ids:
         if pid not in CHECKS:
